@@ -227,7 +227,28 @@ def p2_schema():
                field("kids", 2, "TYPE_MESSAGE", label="LABEL_REPEATED", type_name=".vt.p2.Req1") + field("x", 3, "TYPE_INT32") + '}\n')
     out.append('message_type {\n  name: "Msgs"\n' + field("m", 1, "TYPE_MESSAGE", type_name=".vt.p2.Leaf") +
                field("rm", 2, "TYPE_MESSAGE", label="LABEL_REPEATED", type_name=".vt.p2.Leaf") + field("tail", 3, "TYPE_INT32") + '}\n')
+    # proto2 extensions: one extendable message per kind, extended from the scope of a second message (the only
+    # place the generator looks for extensions). uint32 and enum extensions are left out: the generator emits
+    # non-compiling code for the first and fails on the second (C16, not claimed).
+    for i, kind in enumerate(EXT_KINDS):
+        k, typ, gt, wire = kind
+        out.append('message_type {\n  name: "X%s"\n' % k + field("a", 1, "TYPE_INT32") + '  extension_range { start: 100 end: 536870912 }\n}\n')
+        out.append('message_type {\n  name: "X%sScope"\n' % k + extension("x", EXT_NUMS[i % len(EXT_NUMS)], typ, ".vt.p2.X" + k) + '}\n')
+    out.append('message_type {\n  name: "XAll"\n' + field("a", 1, "TYPE_INT32") + '  extension_range { start: 100 end: 200 }\n}\n')
+    out.append('message_type {\n  name: "XAllScope"\n' + extension("i", 100, "TYPE_INT32", ".vt.p2.XAll") + extension("s", 101, "TYPE_STRING", ".vt.p2.XAll") +
+               extension("m", 150, "TYPE_MESSAGE", ".vt.p2.XAll", type_name=".vt.p2.Leaf") + '}\n')
     return "".join(out), msgs
+
+
+EXT_KINDS = [k for k in KINDS if k[0] not in ("Uint32", "Enum")]
+EXT_NUMS = [100, 2047, 2048, 536870911]
+
+
+def extension(name, num, typ, extendee, type_name=None):
+    s = f'  extension {{ name: "{name}" number: {num} type: {typ} label: LABEL_OPTIONAL extendee: "{extendee}"'
+    if type_name:
+        s += f' type_name: "{type_name}"'
+    return s + ' json_name: "%s" }\n' % name
 
 
 # ---------------------------------------------------------------- harness code
@@ -558,6 +579,275 @@ def gen_unmarshal_harnesses(prefix, kind, info, syntax):
     return "\n".join(L) + "\n\n"
 
 
+def gen_ext_harnesses():
+    """C04/C05/C06 for generated proto2 extension snippets (package p2)."""
+    L = ['''// proto2 extensions in generated code. In the solver run the descriptors are spelled out here (the generated
+// package initialiser is not executed) and the runtime's extension store is the engine's contract model; natively
+// the real descriptors and the real runtime are used.
+''']
+    for i, kind in enumerate(EXT_KINDS):
+        k, typ, gt, wire = kind
+        num = EXT_NUMS[i % len(EXT_NUMS)]
+        msg, ev = "X" + k, f"E_X{k}Scope_X"
+        ety = "([]byte)(nil)" if k == "Bytes" else f"(*{gt})(nil)"
+        wt = WT[wire]
+        v = nondet(kind, '"v"')
+        L.append(f"""func xsetup_{msg}() {{
+	if !verifNative() {{
+		{ev} = &protoimpl.ExtensionInfo{{ExtendedType: (*{msg})(nil), ExtensionType: {ety}, Field: {num}}}
+	}}
+}}
+
+// message with symbolic regular field and symbolic extension presence/value, and its canonical encoding
+func xmk_{msg}() (*{msg}, []byte, []byte) {{
+	xsetup_{msg}()
+	m := &{msg}{{}}
+	known, ext := pbBuf(), pbBuf()
+	if nondetBool("has_a") {{
+		a := nondetI32("a")
+		verifAssume(a >= 0)
+		verifAssume(a < 300) // varint sizes of regular fields are the per-kind harnesses' subject
+		m.A = &a
+		known = protowire.AppendVarint(protowire.AppendTag(known, 1, protowire.VarintType), uint64(int64(a)))
+	}}
+	if nondetBool("has_x") {{
+		v := {v}
+		proto.SetExtension(m, {ev}, v)
+		ext = protowire.AppendTag(ext, {num}, {wt})
+		{append_value(kind, "ext", "v")}
+	}}
+	return m, known, ext
+}}
+
+func H_C04_{msg}() {{
+	m, _, _ := xmk_{msg}()
+	pbC04(m)
+}}
+
+func H_C05_{msg}() {{
+	m, known, ext := xmk_{msg}()
+	pbC05X(m, known, ext)
+}}
+
+func H_C06_{msg}() {{
+	xsetup_{msg}()
+	v := {v}
+	in := pbBuf()
+	shape := nondetInt("shape")
+	verifAssume(shape >= 0)
+	verifAssume(shape <= 2)
+	want := true
+	switch verifConcretize(shape) {{
+	case 0: // regular field, extension, unknown field
+		in = protowire.AppendVarint(protowire.AppendTag(in, 1, protowire.VarintType), 7)
+		in = protowire.AppendTag(in, {num}, {wt})
+		{append_value(kind, "in", "v")}
+		in = protowire.AppendVarint(protowire.AppendTag(in, 77, protowire.VarintType), 5)
+	case 1: // the extension occurs twice: the last value wins
+		in = protowire.AppendTag(in, {num}, {wt})
+		{append_value(kind, "in", nondet(kind, '"v0"'))}
+		in = protowire.AppendTag(in, {num}, {wt})
+		{append_value(kind, "in", "v")}
+	default: // the extension does not occur
+		in = protowire.AppendVarint(protowire.AppendTag(in, 1, protowire.VarintType), 7)
+		want = false
+	}}
+	m := &{msg}{{}}
+	proto.SetExtension(m, {ev}, {nondet(kind, '"d"')}) // the destination is pre-populated: the result must not depend on it
+	err := m.Unmarshal(in)
+	verifAssert(err == nil, "Unmarshal accepts a message carrying an extension field")
+	verifAssert(proto.HasExtension(m, {ev}) == want, "the extension is set iff it occurs on the wire")
+	if want && proto.HasExtension(m, {ev}) {{
+		got, ok := proto.GetExtension(m, {ev}).({gt})
+		verifAssert2(ok, {eq(kind, "got", "v")}, "the extension holds the (last) encoded value")
+	}}
+	verifAssertDecodesLikeRef(m, in, "Unmarshal result equals the message the reference runtime decodes")
+	verifReach("end")
+}}
+""")
+    L.append("""func xsetup_XAll() {
+	if !verifNative() {
+		E_XAllScope_I = &protoimpl.ExtensionInfo{ExtendedType: (*XAll)(nil), ExtensionType: (*int32)(nil), Field: 100}
+		E_XAllScope_S = &protoimpl.ExtensionInfo{ExtendedType: (*XAll)(nil), ExtensionType: (*string)(nil), Field: 101}
+		E_XAllScope_M = &protoimpl.ExtensionInfo{ExtendedType: (*XAll)(nil), ExtensionType: (*Leaf)(nil), Field: 150}
+	}
+}
+
+// the runtime emits extensions (ascending field number) before the regular fields, the generated code after them;
+// both are encodings of the same message
+func pbC05X(m pbMsg, known, ext []byte) {
+	out, err := m.Marshal()
+	verifAssert(err == nil, "Marshal succeeds")
+	ref := append(append(make([]byte, 0, 512), ext...), known...)
+	if verifNative() {
+		verifAssertCanonical(m, out, ref, "Marshal output decodes (reference runtime) to an equal message with identical presence")
+	} else {
+		alt := append(append(make([]byte, 0, 512), known...), ext...)
+		verifAssert(verifOr(verifBytesEq(out, ref), verifBytesEq(out, alt)), "Marshal output is the encoding of exactly the populated fields and extensions: nothing dropped, nothing unset emitted")
+	}
+	verifReach("end")
+}
+
+func xmk_XAll() (*XAll, []byte, []byte) {
+	xsetup_XAll()
+	m := &XAll{}
+	known, ext := pbBuf(), pbBuf()
+	if nondetBool("has_a") {
+		a := int32(7)
+		m.A = &a
+		known = protowire.AppendVarint(protowire.AppendTag(known, 1, protowire.VarintType), 7)
+	}
+	if nondetBool("has_i") {
+		v := nondetI32("i")
+		verifAssume(v >= -1)
+		verifAssume(v < 300)
+		proto.SetExtension(m, E_XAllScope_I, v)
+		ext = protowire.AppendVarint(protowire.AppendTag(ext, 100, protowire.VarintType), uint64(int64(v)))
+	}
+	if nondetBool("has_s") {
+		v := string(pbBytes("s"))
+		proto.SetExtension(m, E_XAllScope_S, v)
+		ext = protowire.AppendString(protowire.AppendTag(ext, 101, protowire.BytesType), v)
+	}
+	if nondetBool("has_m") {
+		l := &Leaf{}
+		sub := make([]byte, 0, 32)
+		if nondetBool("has_m_a") {
+			a := nondetI32("m_a")
+			verifAssume(a >= 0)
+			verifAssume(a < 300)
+			l.A = &a
+			sub = protowire.AppendVarint(protowire.AppendTag(sub, 1, protowire.VarintType), uint64(int64(a)))
+		}
+		proto.SetExtension(m, E_XAllScope_M, l)
+		ext = protowire.AppendBytes(protowire.AppendTag(ext, 150, protowire.BytesType), sub)
+	}
+	return m, known, ext
+}
+
+func H_C04_XAll() {
+	m, _, _ := xmk_XAll()
+	pbC04(m)
+}
+
+func H_C05_XAll() {
+	m, known, ext := xmk_XAll()
+	pbC05X(m, known, ext)
+}
+
+// C10: string / bytes extension values decoded in safe mode do not alias the input
+func H_C10_XString() {
+	pbC10Prelude()
+	xsetup_XString()
+	v := string(pbBytes("v"))
+	in := protowire.AppendString(protowire.AppendTag(pbBuf(), 100, protowire.BytesType), v)
+	m := &XString{}
+	verifAssert(m.Unmarshal(in) == nil, "Unmarshal accepts a string extension")
+	verifAssertNoAlias(m, in, "safe-mode decoding does not alias the input buffer")
+	verifReach("end")
+}
+
+func H_C10_XBytes() {
+	pbC10Prelude()
+	xsetup_XBytes()
+	v := pbBytes("v")
+	in := protowire.AppendBytes(protowire.AppendTag(pbBuf(), 2047, protowire.BytesType), v)
+	m := &XBytes{}
+	verifAssert(m.Unmarshal(in) == nil, "Unmarshal accepts a bytes extension")
+	verifAssertNoAlias(m, in, "safe-mode decoding does not alias the input buffer")
+	verifReach("end")
+}
+
+// C09: whatever an earlier Size() cached, Marshal returns the bytes of the current extensions
+func H_C09_XAll() {
+	m, _, _ := xmk_XAll()
+	_ = m.Size()
+	known := pbBuf()
+	if m.A != nil {
+		known = protowire.AppendVarint(protowire.AppendTag(known, 1, protowire.VarintType), 7)
+	}
+	// mutate: set / overwrite the string extension, clear the int32 one
+	v := string(pbBytes("s2"))
+	proto.SetExtension(m, E_XAllScope_S, v)
+	proto.ClearExtension(m, E_XAllScope_I)
+	ext := protowire.AppendString(protowire.AppendTag(pbBuf(), 101, protowire.BytesType), v)
+	if proto.HasExtension(m, E_XAllScope_M) {
+		l := proto.GetExtension(m, E_XAllScope_M).(*Leaf)
+		sub := make([]byte, 0, 32)
+		if l.A != nil {
+			sub = protowire.AppendVarint(protowire.AppendTag(sub, 1, protowire.VarintType), uint64(int64(*l.A)))
+		}
+		ext = protowire.AppendBytes(protowire.AppendTag(ext, 150, protowire.BytesType), sub)
+	}
+	pbC05X(m, known, ext)
+}
+
+// C07: unknown fields around extension fields survive Unmarshal -> Marshal
+func H_C07_XAll() {
+	xsetup_XAll()
+	i, s := nondetI32("i"), string(pbBytes("s"))
+	verifAssume(i >= 0)
+	verifAssume(i < 64)
+	// unknown field numbers next to the extension numbers (the per-kind harnesses range over all numbers)
+	n1 := nondetInt("n1")
+	verifAssume(n1 == 99 || n1 == 102 || n1 == 151)
+	n2 := nondetInt("n2")
+	verifAssume(n2 == 2 || n2 == 149 || n2 == 199)
+	u1, u2 := pbUnknownNum(3, verifConcretize(n1)), pbUnknownNum(2, verifConcretize(n2))
+	known := protowire.AppendVarint(protowire.AppendTag(pbBuf(), 1, protowire.VarintType), 7)
+	ext := protowire.AppendVarint(protowire.AppendTag(pbBuf(), 100, protowire.VarintType), uint64(int64(i)))
+	ext = protowire.AppendString(protowire.AppendTag(ext, 101, protowire.BytesType), s)
+	in := make([]byte, 0, 256)
+	in = append(in, u1...)
+	in = append(in, ext...)
+	in = append(in, u2...)
+	in = append(in, known...)
+	m := &XAll{}
+	verifAssert(m.Unmarshal(in) == nil, "Unmarshal accepts unknown fields around extension fields")
+	out, err := m.Marshal()
+	verifAssert(err == nil, "Marshal succeeds")
+	verifAssert(m.Size() == len(in), "Size accounts for the unknown fields")
+	ref := append(append(append(append(make([]byte, 0, 512), ext...), known...), u1...), u2...)
+	if verifNative() {
+		verifAssertCanonical(m, out, ref, "unknown fields are re-emitted byte for byte by the next Marshal")
+	} else {
+		alt := append(append(append(append(make([]byte, 0, 512), known...), ext...), u1...), u2...)
+		verifAssert(verifOr(verifBytesEq(out, ref), verifBytesEq(out, alt)), "unknown fields are re-emitted byte for byte by the next Marshal")
+	}
+	verifReach("end")
+}
+
+func H_C06_XAll() {
+	xsetup_XAll()
+	i, s, a := nondetI32("i"), string(pbBytes("s")), nondetI32("m_a")
+	sub := protowire.AppendVarint(protowire.AppendTag(make([]byte, 0, 16), 1, protowire.VarintType), uint64(int64(a)))
+	in := pbBuf()
+	in = protowire.AppendBytes(protowire.AppendTag(in, 150, protowire.BytesType), sub)
+	in = protowire.AppendString(protowire.AppendTag(in, 101, protowire.BytesType), s)
+	in = protowire.AppendVarint(protowire.AppendTag(in, 77, protowire.VarintType), 5)
+	in = protowire.AppendVarint(protowire.AppendTag(in, 100, protowire.VarintType), uint64(int64(i)))
+	m := &XAll{}
+	err := m.Unmarshal(in)
+	verifAssert(err == nil, "Unmarshal accepts extension fields in any order")
+	verifAssert3(proto.HasExtension(m, E_XAllScope_I), proto.HasExtension(m, E_XAllScope_S), proto.HasExtension(m, E_XAllScope_M), "all three extensions are set")
+	if proto.HasExtension(m, E_XAllScope_I) && proto.HasExtension(m, E_XAllScope_S) && proto.HasExtension(m, E_XAllScope_M) {
+		gi, ok1 := proto.GetExtension(m, E_XAllScope_I).(int32)
+		gs, ok2 := proto.GetExtension(m, E_XAllScope_S).(string)
+		gm, ok3 := proto.GetExtension(m, E_XAllScope_M).(*Leaf)
+		verifAssert3(ok1, ok2, ok3, "with their Go types")
+		if ok1 && ok2 && ok3 && gm != nil {
+			verifAssert3(gi == i, verifBytesEq([]byte(gs), []byte(s)), gm.A != nil && *gm.A == a, "and the encoded values")
+		}
+	}
+	verifAssertDecodesLikeRef(m, in, "Unmarshal result equals the message the reference runtime decodes")
+	verifReach("end")
+}
+""")
+    hdr = HEADER % "p2"
+    hdr = hdr.replace('import (\n\t"math"\n', 'import (\n\t"math"\n\n\t"google.golang.org/protobuf/proto"\n\t"google.golang.org/protobuf/runtime/protoimpl"')
+    return hdr + "\n".join(L)
+
+
 def main():
     os.makedirs(os.path.join(ROOT, "schemas"), exist_ok=True)
     s3, m3 = p3_schema()
@@ -579,6 +869,8 @@ def main():
         open(os.path.join(d, "gen_helpers.go"), "w").write(helpers)
         open(os.path.join(d, "gen_harness.go"), "w").write(harn)
         open(os.path.join(d, "gen_unmarshal.go"), "w").write(unm)
+        if pkg == "p2":
+            open(os.path.join(d, "gen_ext.go"), "w").write(gen_ext_harnesses())
     print("schemas and harness code written")
 
 
